@@ -225,7 +225,9 @@ impl RawArgs {
     /// println!("{paths:?}");
     /// ```
     pub fn remaining(&self, cursor: &mut ArgCursor) -> impl Iterator<Item = &OsStr> {
-        let remaining = self.items[cursor.cursor..].iter().map(|s| s.as_os_str());
+        // `next_os` advances past the end when it returns `None`
+        let start = cursor.cursor.min(self.items.len());
+        let remaining = self.items[start..].iter().map(|s| s.as_os_str());
         cursor.cursor = self.items.len();
         remaining
     }
@@ -235,7 +237,9 @@ impl RawArgs {
         let pos = match pos {
             SeekFrom::Start(pos) => pos,
             SeekFrom::End(pos) => (self.items.len() as i64).saturating_add(pos).max(0) as u64,
-            SeekFrom::Current(pos) => (cursor.cursor as i64).saturating_add(pos).max(0) as u64,
+            SeekFrom::Current(pos) => (cursor.cursor.min(self.items.len()) as i64)
+                .saturating_add(pos)
+                .max(0) as u64,
         };
         let pos = (pos as usize).min(self.items.len());
         cursor.cursor = pos;
@@ -247,10 +251,10 @@ impl RawArgs {
         cursor: &ArgCursor,
         insert_items: impl IntoIterator<Item = impl Into<OsString>>,
     ) {
-        self.items.splice(
-            cursor.cursor..cursor.cursor,
-            insert_items.into_iter().map(Into::into),
-        );
+        // `next_os` advances past the end when it returns `None`
+        let at = cursor.cursor.min(self.items.len());
+        self.items
+            .splice(at..at, insert_items.into_iter().map(Into::into));
     }
 
     /// Any remaining args?
